@@ -18,7 +18,7 @@ PROP_MODULES = {
     "C11": ["contracts.c11", "contracts.c09", "contracts.c11_bounded", "contracts.c02"],
     "C19": ["contracts.c19", "contracts.c19b", "contracts.c19_bounded", "contracts.c02", "contracts.c15"],
     "C12": ["contracts.c12", "contracts.c12b", "contracts.c12c", "contracts.c12_bounded", "contracts.c10", "contracts.c13c"],
-    "C13": ["contracts.c13", "contracts.c13b", "contracts.c13c", "contracts.c13_bounded", "contracts.c11", "contracts.c12", "contracts.c12c"],
+    "C13": ["contracts.c13", "contracts.c13b", "contracts.c13c", "contracts.c13_bounded", "contracts.c11", "contracts.c12", "contracts.c12c", "contracts.c10"],
     "C14": ["contracts.c14", "contracts.c14_bounded", "contracts.c08", "contracts.c08b", "contracts.c17", "contracts.c13", "contracts.c13c"],
     "C06": ["contracts.c06", "contracts.c06b", "contracts.c06_bounded"],
     "C07": ["contracts.c07", "contracts.c07_bounded", "contracts.c10", "contracts.c03", "contracts.c09"],
@@ -41,6 +41,7 @@ RELATED = {
     "C05": ["contracts.c01b"],
     "C06": ["contracts.c03", "contracts.c05"],
     "C08": ["contracts.c13", "contracts.c13b", "contracts.c14"],
+    "C09": ["contracts.c13"],
     "C10": ["contracts.c08", "contracts.c12", "contracts.c13"],
     "C12": ["contracts.c13", "contracts.c17"],
     "C17": ["contracts.c12", "contracts.c03_bounded", "contracts.c14"],
